@@ -53,6 +53,16 @@ func seekMaxAsModelled() bool {
 
 func le32b(v uint32) []byte { b := make([]byte, 4); binary.LittleEndian.PutUint32(b, v); return b }
 
+// sfoVariant cycles through the special values of each kind so that every one of them is produced
+// after a few worlds, whatever the seed (a randomly picked DataLen of 0 once went untested)
+var sfoVariant = map[int]int{}
+
+func pickVariant(kind, n int) int {
+	v := sfoVariant[kind] % n
+	sfoVariant[kind]++
+	return v
+}
+
 // mutSFO: a PARAM.SFO that is wrong in one specific way (kind 0 = well-formed)
 func mutSFO(r *rng, titleID string, kind int) []byte {
 	ents := [][2]string{{"CATEGORY", "DG"}, {"TITLE_ID", titleID}, {"VERSION", "01.00"}}
@@ -78,15 +88,15 @@ func mutSFO(r *rng, titleID string, kind int) []byte {
 	case 2:
 		b[r.intn(4)] ^= 0x40
 	case 3:
-		put(16, []uint32{0, 1, 2, 1000, 0x7fffffff, 0xffffffff}[r.intn(6)])
+		put(16, []uint32{0, 1, 2, 1000, 0x7fffffff, 0xffffffff}[pickVariant(3, 6)])
 	case 4:
-		put(8, huge[r.intn(len(huge))])
+		put(8, huge[pickVariant(4, len(huge))])
 	case 5:
-		put(12, huge[r.intn(len(huge))])
+		put(12, huge[pickVariant(5, len(huge))])
 	case 6:
-		put(tidx+4, []uint32{0, 1, 2, 3, 4, 5, 31, 32, 33, 40, 0x7fffffff, 0xffffffff}[r.intn(12)])
+		put(tidx+4, []uint32{0, 1, 2, 3, 4, 5, 31, 32, 33, 40, 0x7fffffff, 0xffffffff}[pickVariant(6, 12)])
 	case 7:
-		put(tidx+12, huge[r.intn(len(huge))])
+		put(tidx+12, huge[pickVariant(7, len(huge))])
 	case 8:
 		b[tidx], b[tidx+1] = 0xff, 0xff
 	case 9:
@@ -286,7 +296,7 @@ func c04Worlds(o *out, r *rng, thorough bool) {
 		var reqs []creq
 		if r.chance(50) {
 			t.add(tnode{path: "/GAMES", kind: 'd', mtime: genMtime(r)})
-			sk := r.intn(14) - 1 // -1 = no PS3_GAME at all
+			sk := (i/2)%14 - 1 // -1 = no PS3_GAME at all; kinds and their special values are cycled, not drawn
 			tid := hostileTitleIDs[0]
 			if sk <= 0 || r.chance(30) {
 				tid = hostileTitleIDs[r.intn(len(hostileTitleIDs))]
@@ -294,6 +304,9 @@ func c04Worlds(o *out, r *rng, thorough bool) {
 			nm := r.picks("game", "A Game [BLES12345]", strings.Repeat("G", 40), "gäme", "g\xffme")
 			dir := hostileGame(t, r, nm, sk, tid, o)
 			mode := r.picks("/***PS3***", "/***DVD***")
+			if sk >= 1 && r.chance(80) {
+				mode = "/***PS3***" // only this mode reads PARAM.SFO
+			}
 			o.count("game-open:" + mode)
 			reqs = append(reqs, creq{op: opStatFile, path: mode + dir}, creq{op: opOpenFile, path: mode + dir})
 			reqs = append(reqs, hostileReads(r, 40*2048+int64(r.intn(400000)), 4+r.intn(5))...)
@@ -581,6 +594,11 @@ func hostileRootTree(r *rng, o *out) (*tree, *tnode) {
 	for i, tid := range hostileTitleIDs {
 		hostileGame(t, r, fmt.Sprintf("t%02d", i), 0, tid, o)
 	}
+	for _, kv := range [][2]int{{3, 6}, {4, 7}, {5, 7}, {6, 12}, {7, 7}} { // every special value of every numeric field
+		for v := 0; v < kv[1]; v++ {
+			hostileGame(t, r, fmt.Sprintf("k%dv%02d", kv[0], v), kv[0], hostileTitleIDs[0], o)
+		}
+	}
 	for k := 0; k <= 10; k++ {
 		for ks := 0; ks < 2; ks++ {
 			hostileImage(t, r, fmt.Sprintf("i%d_%d", k, ks), k, ks, o)
@@ -732,7 +750,7 @@ func c04Tools(o *out, r *rng, thorough bool) {
 				}
 			}
 			for _, args := range argsList {
-				if !thorough && r.chance(65) {
+				if !thorough && r.chance(65) && !strings.Contains(n.path, "/GAMES/k") {
 					continue
 				}
 				os.Remove(filepath.Join(outDir, "o.iso"))
